@@ -170,6 +170,41 @@ def discharge_quick(ob: Obligation) -> str | None:
     return smt2_of(s)
 
 
+AXIOMATISED = {"occ", "pm", "first", "flat", "tl", "rk", "Resync", "isfirst", "nofirst"}
+
+
+def ground_refute(text: str, scale: int = 1) -> str | None:
+    """Counter-model search without the quantified lemma axioms.  Sound only when the query does not mention any of the
+    axiomatised functions (then the axioms constrain nothing the query talks about): returns the model text, else None."""
+    s = z3.Solver()
+    s.set("rlimit", Z3_RLIMIT * scale)
+    s.set("timeout", 20000 * scale)
+    try:
+        fs = z3.parse_smt2_string(text)
+    except z3.Z3Exception:
+        return None
+    ground = [f for f in fs if not _has_quantifier(f)]
+    names: set[str] = set()
+    stack, seen = list(ground), set()
+    while stack:
+        f = stack.pop()
+        if f.get_id() in seen:
+            continue
+        seen.add(f.get_id())
+        if z3.is_app(f):
+            names.add(f.decl().name())
+            stack.extend(f.children())
+    if names & AXIOMATISED:
+        return None
+    s.add(*ground)
+    if s.check() == z3.sat and model_validates(s):
+        try:
+            return "z3 model (ground query; no axiomatised function occurs in it): " + str(s.model())[:1500]
+        except z3.Z3Exception:
+            return None
+    return None
+
+
 def finish_pending_slow(task: tuple[str, str, str]) -> dict:
     """Third pass, only for obligations both solvers gave up on within the normal budget (a loaded machine makes the
     wall-clock limits bite): same queries, budgets x8, few processes.  Still `unknown` afterwards = undecided, never a violation."""
@@ -217,6 +252,9 @@ def finish_pending(task: tuple[str, str, str], scale: int = 1) -> dict:
             except z3.Z3Exception:
                 pass
         return {"id": ident, "status": "refuted", "backend": "", "time_s": dt, "detail": detail + ("\n" + model if model else "")}
+    gm = ground_refute(text, scale)
+    if gm is not None:
+        return {"id": ident, "status": "refuted", "backend": "", "time_s": time.time() - t0, "detail": detail + "\n" + gm}
     return {"id": ident, "status": "unknown", "backend": "", "time_s": dt, "detail": detail}
 
 
